@@ -297,7 +297,8 @@ pub fn deploy(cw20: bool, fees: (u128, u128, u128), funds: [u128; 5]) -> Result<
         if !cw20 {
             for (i, a) in people.iter().enumerate() {
                 let amt = funds[i] + if i == 0 { funds[4] } else { 0 };
-                if amt > 0 { router.bank.init_balance(storage, &Addr::unchecked(*a), vec![coin(amt, DENOM)]).unwrap(); }
+                // every funded account also holds a token the vault has nothing to do with (mis-attached funds)
+                if amt > 0 { router.bank.init_balance(storage, &Addr::unchecked(*a), vec![coin(u128::MAX / 8, "ujunk"), coin(amt, DENOM)]).unwrap(); }
             }
         }
     });
@@ -422,6 +423,17 @@ impl VaultWorld {
             new_fee_collector_addr: None,
         }
     }
+    /// vault-router FlashLoan with native coins attached to the message (monitor-only stream of C06: not an `Op` of the model)
+    pub fn router_loan_with_funds(&mut self, u: usize, amount: u128, pre: u128, script: &[Act], attached: u128) -> i64 {
+        let denom = match &self.asset { AssetInfo::NativeToken { denom } => denom.clone(), _ => return 1 };
+        let mut msgs: Vec<CosmosMsg> = vec![];
+        if pre > 0 { if let Ok(m) = asset_send(&self.asset, self.adv.as_str(), Uint128::new(pre)) { msgs.push(m); } }
+        msgs.push(self.adv_run_msg(amount, script));
+        let who = self.addr(u); let router = self.router.clone(); let asset = self.asset.clone();
+        let r = std::panic::catch_unwind(std::panic::AssertUnwindSafe(|| self.app.execute_contract(who, router,
+            &rmsg::ExecuteMsg::FlashLoan { assets: vec![Asset { info: asset, amount: Uint128::new(amount) }], msgs }, &[coin(attached, denom)])));
+        match r { Ok(Ok(_)) => 0, Ok(Err(e)) => classify_code(&e), Err(_) => 1 }
+    }
     /// run one operation on the real contracts; result code as CorrVault.code (0 ok, 1 other, 2 disabled, 3 unauthorized)
     pub fn exec(&mut self, o: &Op) -> i64 {
         let r = std::panic::catch_unwind(std::panic::AssertUnwindSafe(|| self.exec_inner(o)));
@@ -433,7 +445,9 @@ impl VaultWorld {
             Op::Deposit { u, amount, sent } => {
                 let who = self.addr(*u);
                 let funds: Vec<Coin> = match &self.asset {
-                    AssetInfo::NativeToken { denom } => if sent.is_zero() { vec![] } else { vec![coin(sent.u128(), denom)] },
+                    // sent = 0 with a non-zero declared amount: attach the declared amount in a FOREIGN denom instead
+                    // (the model sees "nothing of the vault asset was sent": FundsMismatch)
+                    AssetInfo::NativeToken { denom } => if sent.is_zero() { if amount.is_zero() { vec![] } else { vec![coin(amount.u128(), "ujunk")] } } else { vec![coin(sent.u128(), denom)] },
                     AssetInfo::Token { .. } => { self.set_allowance(who.as_str(), sent.u128()); vec![] }
                 };
                 self.app.execute_contract(who, vault_addr, &vmsg::ExecuteMsg::Deposit { amount: *amount }, &funds)
